@@ -29,6 +29,9 @@ func gen(t *rapid.T) Case {
 	T := rapid.IntRange(1, maxT).Draw(t, "T")
 	in := simref.DrawInputs(t, "GR4J", cell, T)
 	c.Rain, c.PET = in[0], in[1]
+	if rapid.Bool().Draw(t, "stormy") {
+		simref.Stormy(t, c.Rain)
+	}
 	if rapid.Bool().Draw(t, "warm") {
 		w := simref.DrawInputs(t, "GR4J", cell, rapid.IntRange(1, 30).Draw(t, "warmT"))
 		c.WarmRain, c.WarmPET = w[0], w[1]
